@@ -375,3 +375,9 @@ mod tests {
         assert_eq!(recording.peak_reserved(), 1024);
     }
 }
+
+// Verification hook (inactive unless compiled by the Kani verifier): pulls the
+// proof harnesses for this module in from the directory named by
+// DATAFUSION_VERIF_DIR so that they can reach private items.
+#[cfg(kani)]
+include!(concat!(env!("DATAFUSION_VERIF_DIR"), "/kani/execution/peak_recording.rs"));
